@@ -618,6 +618,15 @@ class BuiltinsMixin:
             return obj[slice(*parts)]
         if isinstance(obj, SList) and conc:
             return SList(obj.items[slice(*parts)])
+        if isinstance(obj, SList) and parts[0] is None and parts[2] is None and isinstance(parts[1], SInt) and not self.spec:
+            # lst[:k] with symbolic k over a static list: case split on k (0..len, clamped like Python for k >= 0)
+            n = len(obj.items)
+            k = parts[1].e
+            opts = [k == v for v in range(n)] + [k >= n]
+            which = self.run.fork(opts + [k < 0], label="slice bound")
+            if which > n:
+                raise Unsupported("negative symbolic slice bound on a list")
+            return SList(obj.items[: min(which, n)])
         if isinstance(obj, SDec):
             if isinstance(parts[0], int) and parts[0] < 0 and parts[1] is None and parts[2] is None and -parts[0] <= obj.w:
                 d = -parts[0]
@@ -707,6 +716,8 @@ class BuiltinsMixin:
         e = self.to_z3(s)
         r = rep(e, n.e)
         self.run.assume(z3.Length(r) == z3.If(n.e > 0, n.e, 0) * z3.Length(e))
+        # one unfolding of the defining recursion: s * n == s * (n - 1) + s
+        self.run.assume(r == z3.If(n.e <= 0, z3.StringVal(""), z3.Concat(rep(e, n.e - 1), e)))
         return SStr(r, self.kind_of(s))
 
     def str_format(self, fmt, args):
